@@ -105,7 +105,8 @@ Definition read_entry (d : bytes) : entry_res :=
     if negb known then RBad else
     let t := if (m =? MAGIC_TREE) || (m =? MAGIC_COMP_TREE) then Tree else Data in
     let need := if comp then (8 + id_len)%nat else (4 + id_len)%nat in
-    if (length r <? need)%nat then RBad else
+    (* `firstn` keeps the test linear in the entry size (same value as length r <? need) *)
+    if (length (firstn need r) <? need)%nat then RBad else
     let len := rd32 r in
     let r1 := skipn 4 r in
     (* into_location: NonZeroU32::new(len_data) — a stored 0 becomes None *)
@@ -251,6 +252,26 @@ Fixpoint run_go (enc : bytes -> bytes) (tpe : blob_type) (st : pstate) (ops : li
 
 Definition packer_run (enc : bytes -> bytes) (tpe : blob_type) (ops : list pop) :=
   run_go enc tpe st0 ops.
+
+(* BasicPacker::should_save with PackSizer::fixed(limit): count >= MAX_COUNT || size >= min(limit,
+   MAX_SIZE) || elapsed >= MAX_AGE — the age test is the only oracle left (`aged`). *)
+Definition should_save_b (limit : N) (aged : bool) (st : pstate) : bool :=
+  (MAX_COUNT <=? p_count st) || (N.min limit MAX_SIZE <=? p_size st) || aged.
+
+(* the packer driven by its own should_save; `op_save o` is read as "the pack is older than MAX_AGE
+   when o arrives" *)
+Fixpoint run_auto (enc : bytes -> bytes) (tpe : blob_type) (limit : N) (st : pstate) (ops : list pop)
+  : res (list (bytes * list iblob)) :=
+  match ops with
+  | [] => if p_count st =? 0 then Ok [] else bind (save enc st) (fun '(pk, _) => Ok [pk])
+  | o :: r =>
+    bind (add_raw tpe st o) (fun st1 =>
+    if should_save_b limit (op_save o) st1
+    then bind (save enc st1) (fun '(pk, st2) => bind (run_auto enc tpe limit st2 r) (fun l => Ok (pk :: l)))
+    else run_auto enc tpe limit st1 r)
+  end.
+
+Definition packer_run_auto enc tpe limit ops := run_auto enc tpe limit st0 ops.
 
 (* ------------------------------------------------ repair-index: re-derive the index *)
 (* A repository's pack listing: (pack id, file bytes).  An index pack: (pack id, blobs).
